@@ -43,6 +43,8 @@ pub struct MonSet {
     pub c16: bool,
     pub c17: bool,
     pub c20: bool,
+    /// every replica has an undo manager over its root text / array / XML (local transactions carry the origin "local")
+    pub undo: bool,
 }
 
 pub struct Replica {
@@ -139,6 +141,7 @@ pub struct World {
     /// violations that do not invalidate further monitoring of the same history (first per kind)
     pub soft: Vec<Violation>,
     pub ext: crate::monitors::Ext,
+    pub undo: Vec<Option<yrs::undo::UndoManager<()>>>,
 }
 
 impl World {
@@ -168,7 +171,20 @@ impl World {
             nchars: 0,
             soft: vec![],
             ext: crate::monitors::Ext::default(),
+            undo: vec![],
         };
+        if w.mon.undo {
+            for rep in w.reps.iter() {
+                let mut o = yrs::undo::Options::<()>::default();
+                o.capture_timeout_millis = 0;
+                let mut mgr = yrs::undo::UndoManager::with_options(o);
+                mgr.expand_scope(&rep.doc, &rep.roots.t);
+                mgr.expand_scope(&rep.doc, &rep.roots.a);
+                mgr.expand_scope(&rep.doc, &rep.roots.x);
+                mgr.include_origin("local");
+                w.undo.push(Some(mgr));
+            }
+        }
         crate::monitors::init(&mut w);
         w
     }
@@ -291,8 +307,9 @@ impl World {
                 let mut log = std::mem::take(&mut self.log);
                 let max_depth = self.max_depth;
                 let mut effects: Vec<Effect> = vec![];
+                let with_origin = self.mon.undo;
                 let res = catch(|| {
-                    let mut txn = doc.transact_mut();
+                    let mut txn = if with_origin { doc.transact_mut_with("local") } else { doc.transact_mut() };
                     let mut ctx = OpCtx { tagn: &mut tagn, kind, log: &mut log, rid, max_depth, ascii, nchars: &mut nchars };
                     for c in calls {
                         effects.extend(exec_call(c, &roots, &mut txn, &mut ctx));
